@@ -25,7 +25,7 @@ Merges(s, t) ==
     ELSE {<<Head(s)>> \o m : m \in Merges(Tail(s), t)} \cup {<<Head(t)>> \o m : m \in Merges(s, Tail(t))}
 
 SD == <<St("shutdown", 0)>> \o Rep(St("sd", 0), 5)
-CONN(k) == Rep(St("conn", k), 4)
+CONN(k) == Rep(St("conn", k), 5)
 ACC(k) == <<St("dial", k)>> \o Rep(St("acc", 0), 3)
 Accepted(k) == ACC(k)
 
